@@ -32,20 +32,57 @@ def build(tier):
     NPS = '_ZN7MoveGen13nextPieceSafeERK8Position6Squarei.0'
     VF = ['MoveGen::inCheck/sqAttacked/canTakeKing (moveGen.hpp)', 'MoveGen::isLegal (moveGen.cpp:621-659)', 'MoveGen::removeIllegal (574-618)', 'MoveGen::givesCheck (458-571)',
           'Position::makeMove/unMakeMove/makeMoveB/unMakeMoveB', 'BitBoard::rookAttacks/bishopAttacks/knightAttacks/kingAttacks/getDirection/squaresBetween (real tables)']
+    KINDS = {0: 'any kind', 2: 'queen', 3: 'rook', 4: 'bishop', 5: 'knight', 6: 'pawn'}
     ks = [3] if tier == 'quick' else [3, 4]
     for K in ks:
-        uv = Unit('verdicts%d' % K, 'C01/verdicts.cpp', ['h_attacks', 'h_islegal', 'h_removeillegal', 'h_givescheck'], defines={'NMEN': K}, allow_extern=[r'_ZN11NNEvaluator.*'], aliases=SUBST, lemmas=['O1-rook', 'O1-bishop', 'O1-bits'])
+        defs = {'NMEN': K}
+        if K > 3: defs['ALLPRESENT'] = None
+        uv = Unit('verdicts%d' % K, 'C01/verdicts.cpp', ['h_attacks', 'h_islegal', 'h_removeillegal', 'h_givescheck'], defines=defs, allow_extern=[r'_ZN11NNEvaluator.*'],
+                  aliases=SUBST, lemmas=['O1-rook', 'O1-bishop', 'O1-bits'])
         units.append(uv)
-        params = [0, 1] + [j + K * c for j in range(2, K) for c in (0, 1)]
-        names = {0: 'white king moves', 1: 'black king moves'}
-        for par in params:
-            who = names.get(par, 'extra man %d (%s) moves' % (par % K, 'white' if (par // K) & 1 else 'black'))
+        cases = []   # (param, description)
+        for j in (0, 1):
+            for cls, nm in ((0, 'ordinary king steps'), (1, 'castling moves')):
+                cases.append((j + K * 2 * cls, '%s king, %s' % ('white' if j == 0 else 'black', nm)))
+        for j in range(2, K):
+            if j > 2: continue     # the extra men are interchangeable: the mover is man 2
+            for col in (0, 1):
+                for cls in ((0,) if K == 3 else (2, 3, 4, 5, 6)):
+                    cases.append((j + K * (col + 2 * cls), 'extra man (%s, %s) moves' % ('white' if col else 'black', KINDS[cls])))
+        for par, who in cases:
             for ent, what in (('h_attacks', 'inCheck/sqAttacked/canTakeKing == oracle'), ('h_islegal', 'isLegal == oracle legality for every pseudo-legal move of the mover; board restored'),
                               ('h_removeillegal', 'removeIllegal keeps the singleton pseudo-legal move iff it is legal; board restored'), ('h_givescheck', 'givesCheck == oracle for every legal move of the mover')):
                 if ent == 'h_attacks' and par > 1: continue
                 obs.append(Ob('O3-%s-K%d@%d' % (ent[2:], K, par), uv, ent, '%d-man positions, %s: %s' % (K, who, what), unwind=65, unwindset='%s:9,%s:9' % (NP, NPS), param=par,
-                              core=(K == 3), timeout=1800 if K == 3 else 3600, mem_gb=12, functions=VF, stubs=['rookAttacks/bishopAttacks -> 7-step ray fill, firstBit/lastBit -> ctz/clz (proved equal for all arguments by O1-rook/O1-bishop/O1-bits)'],
-                              bounds='two kings + %d further men of any kind on any squares (men may be absent), any side to move/castling rights/en-passant square accepted by the FEN reader; every (to, promotion) for the chosen mover' % (K - 2),
+                              core=(K == 3), timeout=1800 if K == 3 else 5400, mem_gb=12, functions=VF, backend='kissat',
+                              stubs=['rookAttacks/bishopAttacks -> 7-step ray fill, firstBit/lastBit -> ctz/clz (proved equal for all arguments by O1-rook/O1-bishop/O1-bits)'],
+                              bounds=('two kings + %d further men of any kind on any squares (%s), any side to move/castling rights/en-passant square accepted by the FEN reader; every (to, promotion) for the chosen mover'
+                                      % (K - 2, 'men may be absent' if K == 3 else 'all present; fewer men are covered by K=3')),
                               assumptions=['position domain = FEN-reader acceptance: one king each, no pawn on ranks 1/8, castling right => king and rook at home, ep square => right rank, empty, double-pushed pawn in front; side not to move not in check',
                                            'moves offered to isLegal/removeIllegal are pseudo-legal in the generators\' sense (castling only when not in check and not through check)']))
+    # ---- O2: generators (helpers recorded) + expansion lemmas
+    GEN = ['pseudoLegalMoves (exact set, each move once)', 'checkEvasions (no legal evasion omitted; listed moves pseudo-legal; no duplicates)',
+           'pseudoLegalCaptures (no legal capture / queen-knight promotion omitted)', 'pseudoLegalCapturesAndChecks (no legal capture, queen-knight promotion or checking move omitted)']
+    REC = {'_ZN7MoveGen14addMovesByMaskER8MoveList6Squarem': 'model_addMovesByMask', '_ZN7MoveGen18addPawnMovesByMaskILb1EEEvR8MoveListmib': 'model_addPawnMovesByMaskW',
+           '_ZN7MoveGen18addPawnMovesByMaskILb0EEEvR8MoveListmib': 'model_addPawnMovesByMaskB', '_ZN7MoveGen24addPawnDoubleMovesByMaskER8MoveListmi': 'model_addPawnDoubleMovesByMask'}
+    ue = Unit('expand', 'C01/expand.cpp', ['h_expand'], allow_extern=[r'_ZN11NNEvaluator.*'])
+    units.append(ue)
+    for k, nm in enumerate(['addMovesByMask', 'addPawnMovesByMask<white>', 'addPawnMovesByMask<black>', 'addPawnDoubleMovesByMask']):
+        obs.append(Ob('O2-expand@%d' % k, ue, 'h_expand', nm + ': an arbitrary destination mask is expanded into exactly the moves it stands for (promotions x4 or x2), appended once each, older entries untouched',
+                      unwind=65, param=k, timeout=1800, backend='kissat', functions=['MoveGen::' + nm, 'MoveList::addMove'],
+                      bounds='any list fill 0..180, any mask with <= 28 (pieces) / <= 8 (pawn direction) bits on the rows the generators can pass, any delta of the direction class'))
+    for K in ([3] if tier == 'quick' else [3, 4]):
+        defs = {'NMEN': K}
+        if K > 3: defs['ALLPRESENT'] = None
+        al = dict(SUBST); al.update(REC)
+        ug = Unit('gen%d' % K, 'C01/gen.cpp', ['h_gen'], defines=defs, allow_extern=[r'_ZN11NNEvaluator.*'], aliases=al, lemmas=['O1-rook', 'O1-bishop', 'O1-bits', 'O2-expand'])
+        units.append(ug)
+        for par in range(8):
+            obs.append(Ob('O2-gen-K%d@%d' % (K, par), ug, 'h_gen', '%d-man positions, %s to move: %s' % (K, 'white' if par & 4 else 'black', GEN[par & 3]), unwind=65, param=par,
+                          unwind_fn={r'_ZN7MoveGen(16pseudoLegalMoves|13checkEvasions|19pseudoLegalCaptures|28pseudoLegalCapturesAndChecks)ILb[01]EEEvRK8PositionR8MoveList': K},   # per-kind piece loops: <= K-2 pieces
+
+                          core=(K == 3), timeout=1800 if K == 3 else 5400, mem_gb=12, backend='kissat', functions=['MoveGen::' + GEN[par & 3].split(' ')[0] + '<wtm> (moveGen.cpp:48-456)', 'MoveGen::sqAttacked'],
+                          stubs=['addMovesByMask/addPawnMovesByMask/addPawnDoubleMovesByMask -> recording models (justified by O2-expand)', 'slider/bit kernels -> models (justified by O1 lemmas)'],
+                          bounds='two kings + %d further men of any kind and colour on any squares, castling rights / en-passant square as accepted by the FEN reader; candidate move (from,to,promotion) universally quantified' % (K - 2),
+                          assumptions=['checkEvasions is only asked when the side to move is in check', 'under-promotions to rook/bishop are outside the class of the two capture generators (they emit queen and knight promotions only, by design)']))
     return units, obs
